@@ -1291,7 +1291,8 @@ class BayesianNetwork(DAG):
         model = self.copy()
         state_names = self.states
 
-        evidence = {} if evidence is None else evidence
+        # Work on a copy: entries for virtual evidence are added to this dict below.
+        evidence = {} if evidence is None else dict(evidence)
         for var, state in evidence.items():
             if state not in state_names[var]:
                 raise ValueError(f"Evidence state: {state} for {var} doesn't exist")
